@@ -6,6 +6,7 @@ import (
 	"os"
 	"testing"
 
+	"github.com/Fantom-foundation/lachesis-base/abft/dagidx"
 	"github.com/Fantom-foundation/lachesis-base/inter/idx"
 	"github.com/Fantom-foundation/lachesis-base/utils/adapters"
 	"pgregory.net/rapid"
@@ -46,10 +47,15 @@ func prop(t *rapid.T) {
 			t.Fatalf("%s: merged vector of e%d has size %d/%d, want %d validators", when, i, m1.Size(), m2.Size(), len(ref.IDs))
 		}
 		sawFork, sawCleanForker := false, false
+		// the reports of all validators are collected first and read afterwards (a caller may keep them)
+		held := make([]dagidx.Seq, len(ref.IDs))
+		for v := range ref.IDs {
+			held[v] = m2.Get(idx.Validator(canonPos[v]))
+		}
 		for v := range ref.IDs {
 			wantFork, wantSeq := ref.Merged(i, v)
 			g1 := m1.Get(idx.Validator(canonPos[v]))
-			g2 := m2.Get(idx.Validator(canonPos[v]))
+			g2 := held[v]
 			if g1.IsForkDetected() != wantFork || g2.IsForkDetected() != wantFork {
 				t.Fatalf("%s: merged clock of e%d for validator %d (id %d): fork flag %v/%v, graph says %v\norder %v\n%v",
 					when, i, v, ref.IDs[v], g1.IsForkDetected(), g2.IsForkDetected(), wantFork, order, scen.Describe(ref))
@@ -70,9 +76,29 @@ func prop(t *rapid.T) {
 			mixed = true
 		}
 	}
+	// how the index session goes: flush after every event (the consensus flow, with the no-op DropNotFlushed that
+	// follows there), several events per flush, several flushes without anything in between, and now and then a
+	// reload of everything from the database (DropNotFlushed, Reset over the same database, a new index object)
+	flushEvery := rapid.SampledFrom([]int{1, 1, 2, 3, 7}).Draw(t, "flushEvery")
+	reloads := 0
 	for step, i := range order {
-		if err := x.Add(i); err != nil {
+		if err := x.AddNoFlush(i); err != nil {
 			t.Fatalf("Add(e%d): %v", i, err)
+		}
+		if step%flushEvery == flushEvery-1 || step == len(order)-1 {
+			x.Idx.Flush()
+			switch rapid.SampledFrom([]int{0, 0, 0, 0, 1, 1, 2, 3}).Draw(t, "afterFlush") {
+			case 1:
+				x.Idx.DropNotFlushed()
+				reloads++
+			case 2:
+				x.ResetSameDB()
+				reloads++
+			case 3:
+				x.Reopen()
+				ad = &adapters.VectorToDagIndexer{Index: x.Idx}
+				reloads++
+			}
 		}
 		if len(x.Crits) > 0 {
 			t.Fatalf("crit after Add(e%d): %v", i, x.Crits)
@@ -91,6 +117,10 @@ func prop(t *rapid.T) {
 	}
 	if forkEntries > 0 {
 		classes = append(classes, "fork_observed")
+	}
+	classes = append(classes, fmt.Sprintf("flush_every_%d", flushEvery))
+	if reloads > 0 {
+		classes = append(classes, "reloaded_from_db")
 	}
 	st.Case(stats.Hash(scen.Describe(ref), ref.Weights), mixed, classes...)
 	st.Class("entries", int64(entries))
